@@ -365,13 +365,13 @@ Qed.
 
 (* F4: the code as found follows a symlink that is the layer directory itself *)
 Definition f4_fs : fs :=
-  [ ([], Dir 493); ([[108]], Dir 493); ([[111]], Dir 365); ([[111]; [102]], File 420 [1]);
+  [ ([], Dir 493); ([[108]], Dir 493); ([[111]], Dir 365); ([[111]; [102]], File 420 (Raw [1]));
     ([[108]; [121]], Link [47; 111]) ].     (* /l/y -> /o ; /o is 0555 and holds f *)
 
 Theorem toplevel_symlink_legacy_refuted :
   let '(s', _) := delete_layer false false spec_sbom_suffixes [[108]] [121] f4_fs in
   pget [[111]; [102]] s' = None /\ pget [[111]] s' = Some (Dir 511) /\
   (let '(s2, r2) := delete_layer true true spec_sbom_suffixes [[108]] [121] f4_fs in
-   pget [[111]; [102]] s2 = Some (File 420 [1]) /\ pget [[111]] s2 = Some (Dir 365) /\
+   pget [[111]; [102]] s2 = Some (File 420 (Raw [1])) /\ pget [[111]] s2 = Some (Dir 365) /\
    pget [[108]; [121]] s2 = None /\ r2 = Ok tt).
 Proof. vm_compute. repeat split. Qed.
